@@ -25,6 +25,10 @@ META = {
  "C19": ("C19", "ppv-null vec4 Add uses checked `+` instead of wrapping_add", "debug build, a lane sum that overflows"),
  "C02b": ("C02", "Buffer::try_apply_keystream: early return / stale `have` when the request drains the buffer and then a multiple of 256 bytes", "have in 1..=63 and request length have + 256k, then another apply or current_pos"),
  "C08b": ("C08", "Skein update flushes a full lazy buffer as a non-final block before input_lazy", "total length a non-zero multiple of the block size followed by an empty update"),
+ "C13b": ("C13", "SSE2/SSSE3-only u64x2 insert lane 0: clear mask `_mm_cvtsi64_si128(-1)` -> `_mm_cvtsi32_si128(-1)` keeps the old upper 32 bits", "non-SSE4.1 backend; u64x2.insert(_,0) / u64x4.insert(_,0|2) where the old lane has upper-32 bits the new value lacks"),
+ "C17b": ("C17", "BLAKE finalize, padding-only last block: `t = (0, 0)` -> `t.0 = 0` lets the high counter word enter the final compression", "message of 2^32 bits or more (BLAKE-224/256; 2^64 for 384/512) whose length is 0 or 56..=63 mod 64 (padding-only final block)"),
+ "C02c": ("C02", "seek64: `buf.fresh = blockct == 0` -> `ct == 0`: a mid-block seek inside block 0 is no longer `fresh`, so the remaining length reads as 0 instead of 2^64 blocks", "64-bit-counter cipher; seek to byte 1..63; then current_pos (Err / 2^70+p) before the next apply"),
+ "C05b": ("C05", "counter-mode output: counter block hoisted out of the loop and only `b[0] = i as u8` refreshed, so the 64-bit output-block counter is reduced mod 256", "output size N of more than 256 output blocks (N > 8192 bytes for Skein-256, 16384 for Skein-512, 32768 for Skein-1024)"),
  "C14b": ("C14", "refill4 derives the state left behind from lane 3 + 1 on the low word only (carry dropped)", "low counter word exactly 0xfffffffc at refill4"),
 }
 confirm = {}
